@@ -201,7 +201,13 @@ func (fd *Client) UpdateTable(input *dynamodb.UpdateTableInput) (*dynamodb.Updat
 	}
 
 	if input.AttributeDefinitions != nil {
-		table.SetAttributeDefinition(mapAttributeValueDefinitionToDynamodb(input.AttributeDefinitions))
+		defs := mapAttributeValueDefinitionToDynamodb(input.AttributeDefinitions)
+
+		if err := table.CheckAttributeDefinition(defs); err != nil {
+			return nil, awserr.New("ValidationException", err.Error(), nil)
+		}
+
+		table.SetAttributeDefinition(defs)
 	}
 
 	for _, change := range input.GlobalSecondaryIndexUpdates {
